@@ -1088,6 +1088,10 @@ class Wtp:
             if pre_expand:
                 self.set_template_pre_expand(page.title)
                 expand_stack.append(page)
+            elif page.need_pre_expand:
+                # already marked (stored that way, or by an earlier
+                # analysis): its includers need the mark as well
+                expand_stack.append(page)
 
         # XXX consider encoding template bodies here (also need to save related
         # cookies).  This could speed up their expansion, where the first
